@@ -113,6 +113,7 @@ type Exec struct {
 	recActive map[*Pred]bool
 	recInst   map[string]*recInstance
 	readLog   map[string]Term
+	curClo    *Closure // closure value of the call being specified (callContract)
 }
 
 func (ex *Exec) unsupported(what string) {
